@@ -60,6 +60,9 @@ def gen_array(rng, kind):
         # (libsndfile cannot reopen a FLAC file without frames, and a SPHERE header needs sample_count >= 1)
         n = int(rng.choice([0, 1, 2, int(rng.integers(3, 3000))])) if kind not in ("sph", "flac") else int(rng.choice([1, 2, int(rng.integers(3, 3000))]))
         c = int(rng.integers(1, 7))
+        if rng.random() < 0.06 and kind != "flac":
+            # beyond 2^16 frames with several channels (block sizes of a reader that works in pieces)
+            n, c = int(rng.choice([65535, 65536, 65537, 70001, 131073])), int(rng.choice([2, 3]))
         if kind == "wav32":
             x = rng.integers(-2 ** 31, 2 ** 31 - 1, (n, c)).astype(np.int32)
         else:
@@ -69,9 +72,13 @@ def gen_array(rng, kind):
     shape = tuple(int(rng.choice([0, 1, 2, 5, 17])) if rng.random() < 0.15 else int(rng.integers(1, 40)) for _ in range(nd))
     dt = str(rng.choice(["float32", "float64", "int16", "int32", "uint8", "int64"]))
     if dt.startswith("float"):
-        return rng.standard_normal(shape).astype(dt)
-    info = np.iinfo(dt)
-    return rng.integers(max(info.min, -10 ** 6), min(info.max, 10 ** 6), shape).astype(dt)
+        x = rng.standard_normal(shape).astype(dt)
+    else:
+        info = np.iinfo(dt)
+        x = rng.integers(max(info.min, -10 ** 6), min(info.max, 10 ** 6), shape).astype(dt)
+    if kind in ("npy", "npz", "npzc") and rng.random() < 0.1:
+        x = x.astype(x.dtype.newbyteorder())  # stored with the other byte order: that is its stored dtype
+    return x
 
 
 def write(kind, x, path, rng, extra=None):
@@ -209,6 +216,8 @@ def roundtrip(mon, rec, rng, d, U):
     cast = None
     if rng.random() < 0.3:
         cast = str(rng.choice(["float64", "float32", "int32", "int64"]))
+        if rng.random() < 0.2 and want.dtype.itemsize > 1:
+            cast = want.dtype.newbyteorder().str  # the stored type with the other byte order is a dtype like any other
         with np.errstate(all="ignore"):
             want = want.astype(cast)
     access = str(rng.choice(["name", "forced", "stream"]))
